@@ -182,7 +182,10 @@ def make_savings(case, raw_cost):
             pt = np.asarray(sv["point"], dtype=float).reshape(n, p)
             for t in range(n):
                 P[t, t + 1] = pt[t]
-        return np.zeros((n, p)), T(table=C, params_per_variable=sv.get("k", 1)), T(table=P, params_per_variable=sv.get("k", 1))
+        # the point saving gets a different parameter count than the collective one, so that a mix-up of the two in the
+        # penalties used for column inference is visible
+        kc_ = sv.get("k", 1)
+        return np.zeros((n, p)), T(table=C, params_per_variable=kc_), T(table=P, params_per_variable=3 - kc_ if kc_ in (1, 2) else 1)
     X = np.asarray(sv["X"], dtype=float).reshape(n, p)
     if sv["kind"] == "l2":
         return X, L2Saving(), L2Saving()
